@@ -67,11 +67,20 @@ func c01Corpus() []corpusProg {
 		{"nested-let-in-args", ref.Static("min", a, ref.Static("max", a, letx(ref.Bin("+", a, ref.Int(3)), ref.Let("y", ref.Bin("*", ref.Id("x"), ref.Int(2)), ref.Bin("+", ref.Id("x"), ref.Id("y")))))), []string{"a"}, tup(1, 4)},
 		{"closure-capturing-let-in-arg", ref.Static("max", a, letx(ref.Bin("+", a, ref.Int(1)), ref.Call(ref.Clo([]string{"p"}, ref.Bin("+", ref.Id("p"), ref.Id("x"))), ref.Int(100)))), []string{"a"}, tup(1, 4)},
 		{"recursion", ref.Func("f", []string{"n"}, ref.If(ref.Bin("<=", ref.Id("n"), ref.Int(0)), ref.Int(0), ref.Bin("+", ref.Call(ref.Id("f"), ref.Bin("-", ref.Id("n"), ref.Int(1))), ref.Id("n"))), ref.Call(ref.Id("f"), a)), []string{"a"}, tup(0, 1, 10)},
+		// the nearest binding wins over a static function of the same name; a field holding a closure over a method
+		{"let-named-like-static-function", ref.Let("sqr", ref.Clo([]string{"x"}, ref.Bin("+", ref.Id("x"), a)), ref.Static("sqr", ref.Int(3))), []string{"a"}, tup(4, 100)},
+		{"const-let-named-like-static-function", ref.Let("sqr", ref.Clo([]string{"x"}, ref.Bin("+", ref.Id("x"), ref.Int(100))), ref.Bin("+", ref.Static("sqr", ref.Int(3)), a)), []string{"a"}, tup(4)},
+		{"func-named-like-static-function", ref.Func("abs", []string{"x"}, ref.Bin("+", ref.Id("x"), a), ref.Static("abs", ref.Int(-5))), []string{"a"}, tup(4, 1)},
+		{"const-func-named-like-static-function", ref.Func("abs", []string{"x"}, ref.Bin("+", ref.Id("x"), ref.Int(1)), ref.Bin("+", ref.Static("abs", ref.Int(-5)), a)), []string{"a"}, tup(4)},
+		{"param-named-like-static-function", ref.Call(ref.Clo([]string{"sqrt"}, ref.Static("sqrt", ref.Int(4))), ref.Clo([]string{"v"}, ref.Bin("*", ref.Id("v"), a))), []string{"a"}, tup(3)},
+		{"recursive-func-named-like-static-function", ref.Func("sqr", []string{"v"}, ref.If(ref.Bin(">", ref.Id("v"), ref.Int(100)), ref.Id("v"), ref.Static("sqr", ref.Bin("+", ref.Id("v"), ref.Int(50)))), ref.Bin("+", ref.Static("sqr", ref.Int(3)), a)), []string{"a"}, tup(0)},
+		{"field-closure-named-like-method", ref.Bin("+", ref.Method(ref.MapN([]string{"get", "a"}, []*ref.Node{ref.Clo([]string{"k"}, ref.Int(1)), ref.Int(2)}), "get", ref.Str("a")), a), []string{"a"}, tup(0)},
+		{"field-closure-named-like-method-nonconst", ref.Method(ref.MapN([]string{"get", "a"}, []*ref.Node{ref.Clo([]string{"k"}, a), ref.Int(2)}), "get", ref.Str("a")), []string{"a"}, tup(7)},
 		{"curry", ref.Call(ref.Call(ref.Clo([]string{"p"}, ref.Clo([]string{"q"}, ref.Bin("-", ref.Id("p"), ref.Id("q")))), a), ref.Int(3)), []string{"a"}, tup(10, 2)},
 	}
 }
 
-var c01dials = gen.Dials{MaxDepth: 6, Budget: 70, VarLeaf: 0.75, Bind: 0.4, Fault: 0.008}
+var c01dials = gen.Dials{MaxDepth: 6, Budget: 70, VarLeaf: 0.75, Bind: 0.4, Fault: 0.008, Collide: 0.02}
 
 func (c01) Run(c *wk.Case) {
 	mon.InstallSlot()
@@ -166,6 +175,7 @@ func (c01) Run(c *wk.Case) {
 			if c.Verbose {
 				c.Logf("  [%s] real %s err=%v", s.name, bridge.Describe(got.Val), got.Err)
 			}
+			got.FloatTol = regroupTol(s.name == "optimizer", src)
 			v, why := bridge.CompareOutcome(wv, we, rae, got)
 			switch v {
 			case bridge.Disagree:
@@ -243,6 +253,7 @@ func disagreement(vl *vlang, prog *ref.Node, argNames []string, tuples [][]ref.V
 					got = evalReal(f, ra)
 				}
 			}
+			got.FloatTol = regroupTol(g == vl.opt, src)
 			if v, why := bridge.CompareOutcome(wv, we, rae, got); v == bridge.Disagree {
 				return true, fmt.Sprintf("args %v: %s", describeArgs(tu), why)
 			}
